@@ -509,7 +509,7 @@ def base_families(spec):
 def tolerates_out_of_bounds(spec):
   """base objectives that are plain formulas (the optproblems bases check their bounds): only
   over those may a shift be applied without restricting the search space"""
-  return base_families(spec) <= {'bbob', 'branin', 'hartmann', 'dh'}
+  return base_families(spec) <= {'bbob', 'branin', 'hartmann'}
 
 
 def gen_wrapper(rng, inner_spec, inner_node, level, allow):
@@ -991,6 +991,15 @@ def identify_variants(c):
   if not flags['permuteInt']:
     c.prop_fail(KEY_PERM_INT, 'PermutingExperimenter over integer-valued DISCRETE/INTEGER parameters cannot evaluate any trial: %s' % res,
                 {'stack': describe(spec), 'spec': spec, 'point': pt, 'real': res})
+  # (0) variant of the converter the hyper-cube wrapper decodes with (C15's flag, no finding of C20)
+  try:
+    from vizier.pyvizier import converters
+    pb = vz.ProblemStatement()
+    pb.search_space.root.add_float_param('x', 1e-3, 10.0, scale_type=vz.ScaleType.LOG)
+    conv = converters.TrialToArrayConverter.from_study_config(pb, scale=True, pad_oovs=False)
+    flags['clipScaled'] = 'x' in conv.to_parameters(np.array([[100.0]]))[0]
+  except Exception:  # pylint: disable=broad-except
+    flags['clipScaled'] = False
   # (4) normaliser statistics with infeasible samples
   spec = {'k': 'normalize', 'n': 8, 'seed': 42, 'e': {'k': 'hashinf', 'prob': 0.5, 'seed': 3, 'e': SPHERE2}}
   node = build(spec, SPEC_FLAGS)
@@ -1072,6 +1081,7 @@ def perm_int_nodes(node):
 
 def run_cases(c, specs, flags, n_batches, max_batch, tag, points=None):
   """real runs -> model queries -> real bases -> model evaluation -> comparisons"""
+  SPEC_FLAGS = dict(globals()['SPEC_FLAGS'], clipScaled=flags.get('clipScaled', False))
   cases = []
   for spec in specs:
     try:
@@ -1124,7 +1134,7 @@ def run_cases(c, specs, flags, n_batches, max_batch, tag, points=None):
     reqs.append({'op': 'evaluate', 'ex': ex_json(case.node, SPEC_FLAGS, tables), 'st': st0, 'batches': case.batches})
     variants.append((case, 'spec'))
     tree_flags = {k: flags[k] for k in SPEC_FLAGS}
-    if tree_flags != SPEC_FLAGS and has_kind(case.spec, [k for k in SPEC_FLAGS if not flags[k]]):
+    if tree_flags != SPEC_FLAGS and has_kind(case.spec, [k for k in ('hypercube', 'switch', 'multi') if not flags[k]]):
       reqs.append({'op': 'evaluate', 'ex': ex_json(case.node, tree_flags, tables), 'st': st0, 'batches': case.batches})
       variants.append((case, 'tree'))
   res = c.lean(DRIVER, reqs)
@@ -1195,7 +1205,7 @@ def judge_case(c, case, spec_res, tree_res, flags, tag):
       where = {'stack': case.desc, 'spec': case.spec, 'batch': bi, 'trial': ti, 'point': pt, 'real': {k: r[k] for k in ('final', 'inf')},
                'expected': {'final': ms['final'] and {n: cd.unhex(v) for n, v in ms['final']}, 'inf': ms['inf']}}
       if tree_res is not None and not compare_trial(r, tree_res['batches'][bi][ti]):
-        dropped = [k for k in SPEC_FLAGS if not flags[k] and k in kinds]
+        dropped = [k for k in ('hypercube', 'switch', 'multi') if not flags[k] and k in kinds]
         c.prop_fail(KEY_INF_DROP % dropped[0], 'a point the wrapped experimenter marks infeasible comes back feasible from %s' % case.desc, where)
         continue
       if first is None:
@@ -1245,6 +1255,23 @@ def localise(c, case, flags):
   return None
 
 
+def guarded(c, stage, fn, i):
+  """an exception of the real code on a valid input is a failure of the property, not of the harness"""
+  try:
+    fn(i)
+  except core.InfraError:
+    raise
+  except Exception as e:  # pylint: disable=broad-except
+    import traceback
+    tb = traceback.extract_tb(e.__traceback__)
+    in_real = any('/vizier/' in fr.filename for fr in tb)
+    if not in_real:
+      raise
+    c.prop_fail('real-code-raises:%s:%s' % (stage, type(e).__name__),
+                'the real code raised %s: %s in the %s on valid arguments' % (type(e).__name__, str(e)[:200], stage),
+                {'stage': stage, 'iteration': i, 'traceback': [(fr.filename, fr.lineno) for fr in tb][-4:]})
+
+
 # ------------------------------------------------------------------ seeded noise of NoisyExperimenter.from_type
 NOISE_TYPES = ['NO_NOISE', 'MODERATE_GAUSSIAN', 'SEVERE_GAUSSIAN', 'MODERATE_UNIFORM', 'SEVERE_UNIFORM',
                'MODERATE_SELDOM_CAUCHY', 'SEVERE_SELDOM_CAUCHY', 'LIGHT_ADDITIVE_GAUSSIAN',
@@ -1254,7 +1281,7 @@ NOISE_TYPES = ['NO_NOISE', 'MODERATE_GAUSSIAN', 'SEVERE_GAUSSIAN', 'MODERATE_UNI
 def noise_stage(c, n_rounds):
   m = M()
   vz = m['vz']
-  for i in range(n_rounds):
+  def one(i):
     base_spec = gen_base(c.rng, c.rng.choice(['bbob', 'bbob', 'branin', 'hartmann', 'simplekd']))
     nt = NOISE_TYPES[i % len(NOISE_TYPES)]
     s1 = c.rng.randrange(1, 10 ** 6)
@@ -1284,6 +1311,11 @@ def noise_stage(c, n_rounds):
     if nt not in ('NO_NOISE', 'MODERATE_SELDOM_CAUCHY', 'SEVERE_SELDOM_CAUCHY') and len(flat_a) >= 3 and flat_a == flat_d and any(v >= 1e-8 for v in flat_0):
       c.prop_fail('noise-ignores-seed', 'NoisyExperimenter.from_type(%s) gives identical values for seeds %d and %d' % (nt, s1, s2), dict(case, values=flat_a))
     # the unnoised copy is the base objective; NO_NOISE is the stabilising offset only
+    bad_names = [sorted(r['final']) for bt in a for r in bt
+                 if set(r['final']) != set(names) | set(n + '_before_noise' for n in names)]
+    if bad_names:
+      c.prop_fail('metric-names:noisy', 'noisy trial carries %s, documented: the problem\'s metrics and their `_before_noise` copies' % bad_names[0], case)
+      return
     before = [r['final'][n + '_before_noise'] for bt in a for r in bt for n in names]
     if any(not close(x, y) for x, y in zip(before, flat_0)):
       c.prop_fail('relation:noisy', '`_before_noise` metrics differ from the base objective (%s)' % nt, dict(case, before=before, base=flat_0))
@@ -1291,17 +1323,15 @@ def noise_stage(c, n_rounds):
       want = [v + 1.01 * 1e-8 if v >= 1e-8 else v for v in flat_0]
       if any(not close(x, y, 1e-12) for x, y in zip(flat_a, want)):
         c.prop_fail('relation:noisy', 'NO_NOISE values differ from the base objective + stabilising offset', dict(case, real=flat_a, want=want))
-    for bt in a:
-      for r in bt:
-        if set(r['final']) != set(names) | set(n + '_before_noise' for n in names):
-          c.prop_fail('metric-names:noisy', 'noisy trial carries %s' % sorted(r['final']), case)
 
+  for i in range(n_rounds):
+    guarded(c, 'noise_stage', one, i)
 
 # ------------------------------------------------------------------ NumpyExperimenter directly (non-finite objective)
 def numpy_stage(c, n):
   m = M()
   vz = m['vz']
-  for i in range(n):
+  def one(i):
     dim = c.rng.randrange(1, 5)
     problem = m['bbob'].DefaultBBOBProblemStatement(dim, metric_name=c.rng.choice(['bbob_eval', 'obj', 'y']))
     thr = c.rng.uniform(-3, 3)
@@ -1335,13 +1365,15 @@ def numpy_stage(c, n):
         if r['inf'] or r['final'] is None or set(r['final']) != {name} or not close(r['final'][name], want):
           c.prop_fail('relation:base', 'NumpyExperimenter does not complete the trial with impl(features)', dict(case, real=r, want=want))
 
+  for i in range(n):
+    guarded(c, 'numpy_stage', one, i)
 
 # ------------------------------------------------------------------ the factory stacks like a manual stacking
 def factory_stage(c, n):
   m = M()
   vz = m['vz']
   F = m['factory']
-  for i in range(n):
+  def one(i):
     dim = c.rng.randrange(2, 5)
     fn = c.rng.choice(BBOB_FUNCTIONS)
     bf = F.BBOBExperimenterFactory(fn, dim, c.rng.randrange(0, 3))
@@ -1381,7 +1413,7 @@ def factory_stage(c, n):
     c.count(1, ('factory', i), kind='factory')
     if p1 != p2:
       c.prop_fail('factory-stacking', 'SingleObjectiveExperimenterFactory builds a problem different from the documented stacking', dict(case, real=p1, manual=p2))
-      continue
+      return
     pts = [sample_space(c.rng, e1.problem_statement().search_space) for _ in range(4)]
     t1 = [vz.Trial(parameters=p) for p in pts]
     t2 = [vz.Trial(parameters=p) for p in pts]
@@ -1397,6 +1429,84 @@ def factory_stage(c, n):
     if json.dumps([trial_result(t) for t in t3], sort_keys=True) != json.dumps(r1, sort_keys=True):
       c.prop_fail('factory-not-deterministic', 'two calls of the same factory give experimenters that disagree', case)
 
+  for i in range(n):
+    guarded(c, 'factory_stage', one, i)
+
+# ------------------------------------------------------------------ through the benchmark runner
+def runner_stage(c, flags, n):
+  """BenchmarkRunner subroutines hand the suggested trials to the experimenter, which completes
+  them in place: what the algorithm's trial store holds afterwards must be what a twin of the
+  experimenter answers at the stored parameters, and those are the suggested ones."""
+  m = M()
+  vz = m['vz']
+  from vizier._src.benchmarks.runners import benchmark_runner, benchmark_state
+  from vizier._src.algorithms.designers import random as random_designer
+
+  def one(i):
+    allow = [w for w in ALL_WRAPPERS if w != 'noisy']
+    spec, node = gen_chain(c.rng, flags, c.rng.randrange(0, 3), allow=allow)
+    if perm_int_nodes(node) and not flags['permuteInt']:
+      return
+    twin = build(spec, flags).real
+    problem = node.real.problem_statement()
+    seed = c.rng.randrange(1, 10 ** 6)
+
+    def factory(p, seed=None):
+      return random_designer.RandomDesigner(p.search_space, seed=seed)
+    state = benchmark_state.BenchmarkState(
+        experimenter=node.real,
+        algorithm=benchmark_state.PolicySuggester.from_designer_factory(problem, factory, seed=seed))
+    subs = [benchmark_runner.GenerateSuggestions(c.rng.randrange(1, 4)), benchmark_runner.EvaluateActiveTrials(c.rng.choice([None, 1, 2])),
+            benchmark_runner.GenerateAndEvaluate(c.rng.randrange(1, 4)), benchmark_runner.FillActiveTrials(c.rng.randrange(1, 4))]
+    c.rng.shuffle(subs)
+    benchmark_runner.BenchmarkRunner(subs, num_repeats=c.rng.randrange(1, 4)).run(state)
+    trials = state.algorithm.supporter.GetTrials()
+    names = [mi.name for mi in problem.metric_information]
+    c.count(len(trials), ('runner', describe(spec), i), kind='runner')
+    c.traces += len(trials)
+    for t in trials:
+      case = {'stack': describe(spec), 'spec': spec, 'trial': t.id, 'point': canon_params(t.parameters)}
+      if not problem.search_space.contains(t.parameters):
+        c.prop_fail('runner:parameters-outside-space', 'after the run trial %d holds parameters outside the experimenter\'s search space (%s)' % (t.id, describe(spec)), case)
+      if t.status.name != 'COMPLETED':
+        if t.final_measurement is not None:
+          c.prop_fail('runner:active-trial-touched', 'an unevaluated trial carries a measurement', case)
+        continue
+      fresh = vz.Trial(parameters=t.parameters.as_dict())
+      twin.evaluate([fresh])
+      a, b = trial_result(t), trial_result(fresh)
+      same = a['inf'] == b['inf'] and (a['final'] is None) == (b['final'] is None) and (
+          a['final'] is None or (set(a['final']) == set(b['final']) and all(close(a['final'][k], b['final'][k]) for k in a['final'])))
+      if not same:
+        c.prop_fail('runner:stored-result-differs', 'the trial store holds %s for trial %d, the experimenter answers %s at its parameters (%s)' % (a, t.id, b, describe(spec)), dict(case, stored=a, twin=b))
+      if not a['inf'] and set(a['final'] or {}) != set(names):
+        c.prop_fail('metric-names:' + node.kind, 'completed trial carries %s, problem names %s' % (sorted(a['final'] or {}), names), case)
+
+  for i in range(n):
+    guarded(c, 'runner_stage', one, i)
+
+
+def observe_allow_oov(c):
+  """Outside the property (its quantifier is over points of the search space): recorded as a note."""
+  try:
+    m = M()
+    vz = m['vz']
+    base = build_base(SPHERE2)
+    res = {}
+    for flag in (False, True):
+      e = m['discretizing'].DiscretizingExperimenter(base, {'x0': [-1.0, 0.0, 2.5]}, allow_oov=flag)
+      t = vz.Trial(parameters={'x0': 1.234, 'x1': 0.5})
+      try:
+        e.evaluate([t])
+        res[flag] = 'evaluated'
+      except ValueError:
+        res[flag] = 'ValueError'
+    if res == {False: 'evaluated', True: 'ValueError'}:
+      c.notes.append('observation outside the property: DiscretizingExperimenter(allow_oov=False) evaluates an out-of-vocabulary value and '
+                     'allow_oov=True refuses it with ValueError - the flag is inverted with respect to its docstring (not judged: C20 quantifies over points of the search space)')
+  except Exception:  # pylint: disable=broad-except
+    pass
+
 
 # ------------------------------------------------------------------ run
 def run(c):
@@ -1407,8 +1517,10 @@ def run(c):
   flags = identify_variants(c)
   c.flags.update({'hypercubeKeepsInfeasible': flags['hypercube'], 'switchKeepsInfeasible': flags['switch'],
                   'multiKeepsInfeasible': flags['multi'], 'permuteIntegerValued': flags['permuteInt'],
-                  'infeasibleProblemByValue': flags['byValue'], 'normaliserSkipsInfeasible': flags['normSkipsInfeasible']})
+                  'infeasibleProblemByValue': flags['byValue'], 'normaliserSkipsInfeasible': flags['normSkipsInfeasible'],
+                  'converterClipsInScaledSpace': flags['clipScaled']})
   quick = c.tier == 'quick'
+  observe_allow_oov(c)
   if getattr(c, 'replay_path', None):
     # the witnesses of the known defect classes were replayed by identify_variants above; a
     # replay file of a generated stacking is evaluated again at its point and on fresh batches
@@ -1442,6 +1554,7 @@ def run(c):
   noise_stage(c, 20 if quick else 150)
   numpy_stage(c, 20 if quick else 200)
   factory_stage(c, 8 if quick else 80)
+  runner_stage(c, flags, 10 if quick else 100)
   return c.finish(
       level='proof',
       rule='stackings of the real wrapper experimenters over the real synthetic bases; a stacking counts as non-trivial when it has at least two wrappers or a switch / multi-objective node and was evaluated on at least one trial; noise cases count per (noise type, base)',
